@@ -128,6 +128,14 @@ def c17_scenarios(seed, quick, cases, call, scn):
                  call(4, op="GetSub", name=S8),
                  call(4, op="DeleteSub", name=S8)]
     add("c17-ack-deadlines", mids)
+    # the RPCs the emulator does not implement, aimed at existing, missing and malformed resources:
+    # a status, no state change (the snapshots before / after must agree), everything keeps working
+    mids = []
+    for rpc in ("UpdateTopic", "ListTopicSnapshots", "DetachSubscription", "UpdateSubscription", "ModifyPushConfig", "GetSnapshot",
+                "ListSnapshots", "CreateSnapshot", "UpdateSnapshot", "DeleteSnapshot", "Seek"):
+        for n in (T1, S1, "projects/p1/topics/none", "projects/p1/subscriptions/none", "projects/p1", "", "x/y", names[0]):
+            mids.append(call(4, op="Other", rpc=rpc, name=n))
+    add("c17-unimplemented", mids)
     # out-of-range batch limits
     mids = []
     for mx in (0, -1, -1000, -2147483648, 2147483647, 65536, 65537):
